@@ -136,7 +136,10 @@ Definition geo_start : option database := Some (DMax (Some 0%N) (Some 0%N)).
 Fixpoint chk_reloads (cur : option database) (l : list (option dbconf * N)) : bool :=
   match l with
   | [] => true
-  | (conf, obs) :: l' => let n := on_reload false cur conf in (geo_kind n =? obs)%N && chk_reloads n l'
+  | (conf, obs) :: l' =>
+    (* compared: whether the station holds a collaborator at all (what the property depends on); WHICH database a
+       successful reload installed shows in what it answers for the next connections (the ROpen events) *)
+    let n := on_reload false cur conf in Bool.eqb (geo_kind n =? 0)%N (obs =? 0)%N && chk_reloads n l'
   end.
 
 Definition rem_tab := list (N * list N).
